@@ -132,7 +132,8 @@ CBitsTypesRich ==
 
 COctsTypes ==
   << TOcts(Sz(1, 1, FALSE)), TOcts(Sz(3, 3, FALSE)), TOcts(Sz(0, 2, FALSE)), TOcts(Sz(1, 4, FALSE)),
-     TOcts(Sz(0, 127, FALSE)), TOcts(Sz(0, 128, FALSE)), TOcts(Sz(0, 256, FALSE)) >>
+     TOcts(Sz(0, 127, FALSE)), TOcts(Sz(0, 128, FALSE)), TOcts(Sz(0, 256, FALSE)),
+     TOcts(Sz(1, 3, FALSE)), TOcts(Sz(4, 10, FALSE)) >>      \* lower bound > 0 and a range that is not a power of two: the length field can hold more than ub - lb
 
 COctsTypesRich ==
   COctsTypes \o
@@ -147,6 +148,7 @@ AddsN(n) == TSeq("SEQ", <<Pre>>, TRUE, [i \in 1..n |-> Add1(Mand("q" \o ToString
 CShapes ==
   << OptBools(7, TRUE), OptBools(8, FALSE), ChoiceN(3), ChoiceN(5),
      TOf("SEQOF", TBool, Sz(1, 260, FALSE)), TOf("SEQOF", TNull, Sz(3, 4, FALSE)),
+     TOf("SEQOF", I(B(0), B(255)), Sz(1, 3, FALSE)), TOf("SEQOF", TBool, Sz(1, 7, FALSE)),
      TSeq("SEQ", <<Def("s", TBool, FALSE), Def("o", I(B(-2), B(4)), B(3)), Opt("n", TBool)>>, FALSE, <<>>) >>
   \o (IF Codec = "oer" THEN <<AddsN(8), AddsN(9)>> ELSE <<>>)
 
